@@ -295,8 +295,15 @@ func Recv[T any](ch <-chan T) T {
 //go:norace
 func Recv2[T any](ch <-chan T) (T, bool) {
 	t := enter(true)
+	ref := refOfR(ch)
+	if ref.cap == 0 && ref.p != nil {
+		// "arrived at the receive" and "parked on the channel" are distinct instants: a
+		// non-blocking send placed between them finds no receiver (lost wake-up)
+		t.op = opYield
+		t.point()
+	}
 	t.op = opRecv
-	t.ref = refOfR(ch)
+	t.ref = ref
 	if t.ref.cap == 0 && t.ref.p != nil {
 		raceReleaseMerge(t.ref.p)
 	}
@@ -391,12 +398,22 @@ func (h *SendH[T]) done(t *Thread) {
 //go:norace
 func Select(hasDefault bool, cs ...SelCase) int {
 	t := enter(true)
+	t.cases = t.cases[:0]
+	arrive := false
+	for _, c := range cs {
+		d := c.desc()
+		t.cases = append(t.cases, d)
+		if !d.send && d.ref.cap == 0 && d.ref.p != nil {
+			arrive = true
+		}
+	}
+	if arrive && !hasDefault {
+		// see Recv2: reaching a blocking select and being parked on its channels are two steps
+		t.op = opYield
+		t.point()
+	}
 	t.op = opSelect
 	t.hasDflt = hasDefault
-	t.cases = t.cases[:0]
-	for _, c := range cs {
-		t.cases = append(t.cases, c.desc())
-	}
 	for k := range t.cases {
 		if t.cases[k].ref.cap == 0 && t.cases[k].ref.p != nil {
 			raceReleaseMerge(t.cases[k].ref.p)
